@@ -27,7 +27,12 @@ for p in sorted(glob.glob('/verif/findings/%s/*.json' % prop)):
             n_f += 1
     elif ma:
         s = max(ma, key=len)
-        tab[k] = {"why": AUD[s]}
+        if k in tab and (tab[k].get("props") or tab[k].get("by_prop")) and prop not in (tab[k].get("props") or []):
+            tab[k].setdefault("by_prop", {})[prop] = {"why": AUD[s]}
+        elif k.startswith(("common::", "<common::")):
+            tab.setdefault(k, {}).setdefault("by_prop", {})[prop] = {"why": AUD[s]}
+        else:
+            tab[k] = {"why": AUD[s]}
         n_a += 1
     else:
         left.append((k, v.get('loc')))
